@@ -5,6 +5,7 @@ import (
 	"context"
 	"encoding/base64"
 	"fmt"
+	"google.golang.org/protobuf/reflect/protoreflect"
 	"net/http/httptest"
 	"strconv"
 	"strings"
@@ -267,6 +268,26 @@ func c08Limits(c *Ctx) {
 					c.Eval("grpc-bomb", fmt.Sprintf("limit=%d compressed=%d inflated=%d", limit, len(z), len(encBig)), true)
 					if pn != nil || len(sfx.got) > 0 {
 						c.SpecFail("grpc-bomb", fmt.Sprintf("limit=%d compressed=%d inflated=%d", limit, len(z), len(encBig)), fmt.Sprintf("delivered=%d panic=%v", len(sfx.got), pn), "an error", "C08/grpc-gzip/over-limit-delivered", "a compressed message that inflates over the limit reaches the handler")
+					}
+				}
+				// … and one whose fields are all 4 bytes long (repeated one-character strings), a number of them
+				// well over the limit: wherever an inflater that stops AT the limit cuts it (limit divisible by 4),
+				// the prefix still parses — a truncated message would be delivered as if it were the client's
+				if limit%4 == 0 {
+					m := fx.NewMsg("Req")
+					l := m.Mutable(m.Descriptor().Fields().ByName("rs")).List()
+					for k := 0; k < limit/4+3; k++ {
+						l.Append(protoreflect.ValueOfString("e"))
+					}
+					encM, _ := proto.Marshal(m)
+					for _, tr := range []string{"application/grpc+proto", "application/grpc-web+proto"} {
+						sfx.reset(nil)
+						_, pn := sfx.serveStream("POST", "/verif.v1.Svc/Up", map[string]string{"Content-Type": tr, "Grpc-Encoding": "gzip"}, grpcFrame(1, gzipBytes(encM)), nil, false, tr == "application/grpc+proto")
+						in := fmt.Sprintf("%s limit=%d inflated=%d (%d fields of 4 bytes)", tr, limit, len(encM), limit/4+3)
+						c.Eval("grpc-gzip-fields", in, true)
+						if pn != nil || len(sfx.got) > 0 {
+							c.SpecFail("grpc-gzip-fields", in, fmt.Sprintf("delivered=%d panic=%v", len(sfx.got), pn), "an error", "C08/grpc-gzip/over-limit-delivered-truncated", "a compressed message that inflates over the limit reaches the handler cut down to the limit")
+						}
 					}
 				}
 				// WebSocket
